@@ -288,9 +288,10 @@ class LiteralProvider(LoaderProvider, DumperProvider):
         if not bytes_cases:
             return self._get_literal_loader_with_enum(literal_loader, enum_loaders, enum_cases)
 
+        # enum loaders have a higher priority over others
         return self._get_literal_loader_many(
-            self._get_literal_loader_with_bytes(literal_loader, allowed_values, bytes_loader),
             self._get_literal_loader_with_enum(literal_loader, enum_loaders, enum_cases),
+            self._get_literal_loader_with_bytes(literal_loader, allowed_values, bytes_loader),
             basic_loader=literal_loader,
         )
 
